@@ -139,7 +139,7 @@ static std::string op_result(tdigest<T>& td, const std::vector<std::string>& w, 
     for (unsigned long j = 0; j <= n; ++j) pts.push_back(mn + (mx - mn) * (T)j / (T)n);
     os << "G";
     for (T p : pts) { const double r = td.get_rank(p); os << " " << Tr<T>::hex(p) << " " << vh::hex_f64(r); }
-    return os.str() == "G" ? "G " : os.str();
+    return os.str();
   }
   if (op == "qgrid" && nargs == 1) {
     unsigned long n; if (!to_nat(w[2], n)) throw bad_op();
